@@ -6,6 +6,7 @@ import (
 	"fmt"
 	"go/types"
 	"math/big"
+	"sort"
 	"strings"
 
 	"golang.org/x/tools/go/ssa"
@@ -209,11 +210,21 @@ func (env *Env) Eval(e *Expr) CV {
 }
 
 func (e *Engine) findGlobal(from *types.Package, pkgName, name string) *ssa.Global {
+	if sp, ok := e.ssaPkgs[pkgName]; ok {
+		if g, ok := sp.Members[name].(*ssa.Global); ok {
+			return g
+		}
+	}
+	var paths []string
 	for path, sp := range e.ssaPkgs {
-		if sp.Pkg.Name() == pkgName || path == pkgName {
-			if g, ok := sp.Members[name].(*ssa.Global); ok {
-				return g
-			}
+		if sp.Pkg.Name() == pkgName {
+			paths = append(paths, path)
+		}
+	}
+	sort.Strings(paths)
+	for _, path := range paths {
+		if g, ok := e.ssaPkgs[path].Members[name].(*ssa.Global); ok {
+			return g
 		}
 	}
 	return nil
@@ -340,10 +351,14 @@ func (env *Env) evalBinary(e *Expr) CV {
 			eq = env.isNilTerm(b)
 		default:
 			a, b = env.unify(a, b)
-			if isFloat(a.T) {
-				// bit equality in contracts (use feq() for IEEE equality)
+			sa, okA := a.V.(SliceV)
+			sb, okB := b.V.(SliceV)
+			if okA && okB && sa.Cap == nil && sb.Cap == nil && a.T != nil && isString(a.T) {
+				// strings compare by content (Go semantics)
+				eq = r.stringEq(env.cur, sa, sb)
+			} else {
+				eq = r.e.eqValLoose(a.V, b.V)
 			}
-			eq = r.e.eqValLoose(a.V, b.V)
 		}
 		if e.Op == "!=" {
 			eq = tb.Not(eq)
@@ -732,6 +747,14 @@ func (env *Env) evalCall(e *Expr) CV {
 		}
 		v := r.rawLoadBV(env.cur.M, a, int(nb.Const.Int64()))
 		return CV{V: Scalar{tb.ZExt(v, 64)}, T: types.Typ[types.Uint64]}
+	case "memload":
+		// memload(p, "pkg.Type"): the value of that Go type stored at raw address p
+		a := r.scalar(arg(0).V)
+		t := r.e.parseTypeName(env.pkg, e.Args[1].Str)
+		if t == nil {
+			panic(cerr("memload: unknown type %q", e.Args[1].Str))
+		}
+		return CV{V: r.rawLoad(env.cur, PtrV{Kind: PRaw, Addr: a, T: t}, t), T: t}
 	case "memstr", "membytes":
 		// slice/string header stored at raw address
 		a := r.scalar(arg(0).V)
@@ -762,6 +785,20 @@ func (env *Env) evalCall(e *Expr) CV {
 		return CV{V: Scalar{arg(0).V.(IfaceV).Tag}, T: types.Typ[types.Uint64]}
 	case "data":
 		return CV{V: Scalar{arg(0).V.(IfaceV).Data}, T: types.Typ[types.UnsafePointer]}
+	case "unbox":
+		// unbox(x, "Type"): the concrete value of that type held in interface value x
+		iv := arg(0).V.(IfaceV)
+		t := r.e.parseTypeName(env.pkg, e.Args[1].Str)
+		if t == nil {
+			panic(cerr("unbox: unknown type %q", e.Args[1].Str))
+		}
+		if isPointerLike(t) {
+			return CV{V: Scalar{iv.Data}, T: t}
+		}
+		return CV{V: r.unbox(iv.Data, t), T: t}
+	case "umul":
+		a, b := env.coerceConst(arg(0), types.Typ[types.Int64]), env.coerceConst(arg(1), types.Typ[types.Int64])
+		return CV{V: Scalar{r.e.umul(r.scalar(a.V), r.scalar(b.V))}, T: a.T}
 	case "bhframe":
 		// every byte object allocated at function entry, other than the listed ones, has its entry content
 		ent := r.rootEntry()
@@ -971,9 +1008,18 @@ func (e *Engine) parseTypeName(from *types.Package, name string) types.Type {
 	if i := strings.LastIndex(base, "."); i >= 0 {
 		pp := base[:i]
 		base = base[i+1:]
-		for path, sp := range e.ssaPkgs {
-			if path == pp || sp.Pkg.Name() == pp {
-				pkg = sp.Pkg
+		if sp, ok := e.ssaPkgs[pp]; ok {
+			pkg = sp.Pkg
+		} else {
+			var paths []string
+			for path, sp := range e.ssaPkgs {
+				if sp.Pkg.Name() == pp {
+					paths = append(paths, path)
+				}
+			}
+			sort.Strings(paths)
+			if len(paths) > 0 {
+				pkg = e.ssaPkgs[paths[0]].Pkg
 			}
 		}
 	}
